@@ -175,3 +175,457 @@ def oracle_case(case, res=None):
     else:
         raise ValueError(case['kind'])
     return fails[0] if fails else None
+
+
+# --------------------------------------------------------------------------
+# correspondence with the Lean model (gdrv)
+
+C02 = Atom('C02')
+
+
+def _attrs_wire(attrs):
+    return [[str(k), '\x00' if v is None else str(v)] for k, v in attrs]
+
+
+def fev_wire(ev):
+    """an event after NamespaceFlattener -> wire value (names are plain strings)"""
+    from genshi.core import START, END
+    from genshi.output import EMPTY
+    kind, data = ev[0], ev[1]
+    if kind is START:
+        return [Atom('S'), str(data[0]), _attrs_wire(data[1])]
+    if kind is EMPTY:
+        return [Atom('EM'), str(data[0]), _attrs_wire(data[1])]
+    if kind is END:
+        return [Atom('E'), str(data)]
+    return evwire.ev(ev)
+
+
+def xev_wire(ev):
+    from genshi.output import EMPTY
+    if ev[0] is EMPTY:
+        return [Atom('EM'), evwire.qn(ev[1][0]), [[evwire.qn(k), str(v)] for k, v in ev[1][1]]]
+    if str(ev[0]) == 'START_NS' and ev[1][1] is None:
+        return [Atom('NS'), str(ev[1][0]), '\x00']
+    return evwire.ev(ev)
+
+
+def rev_wire(events):
+    """canonical events (gen_xml vocabulary) -> the wire form of the Lean reader's answer"""
+    out = []
+    for e in events:
+        k = e[0]
+        if k == 'S':
+            # the reader keeps document order of attributes; compare as sorted sets on both sides
+            out.append([Atom('S'), [e[1], e[2]], [[[a[0], a[1]], a[2]] for a in e[3]]])
+        elif k == 'E':
+            out.append([Atom('E'), [e[1], e[2]]])
+        elif k == 'T':
+            out.append([Atom('T'), e[1]])
+        elif k == 'C':
+            out.append([Atom('C'), e[1]])
+        elif k == 'PI':
+            out.append([Atom('PI'), e[1], e[2]])
+        elif k == 'SC':
+            out.append(Atom('SC'))
+        elif k == 'EC':
+            out.append(Atom('EC'))
+        elif k == 'XD':
+            out.append([Atom('XD'), e[1], proto.N if e[2] is None else e[2], Atom(str(int(e[3])))])
+        elif k == 'DT':
+            out.append([Atom('DT'), e[1], proto.N if e[2] is None else e[2], proto.N if e[3] is None else e[3]])
+    return out
+
+
+def _sort_rev(ans):
+    """sort the attribute list of every S item of a decoded reader answer"""
+    if not (isinstance(ans, list) and len(ans) == 2 and ans[0] == 'ok'):
+        return ans
+    out = []
+    for e in ans[1]:
+        if isinstance(e, list) and e and e[0] == 'S':
+            e = [e[0], e[1], sorted(e[2])]
+        out.append(e)
+    return [ans[0], out]
+
+
+NONE_URI = '\x00'
+
+
+def wire_stream(events):
+    """evwire.stream, with Python's None as the URI of START_NS sent as the reserved string U+0000
+    (see Genshi.Xml.noneUri)"""
+    out = evwire.stream(events)
+    for i, e in enumerate(events):
+        if str(e[0]) == 'START_NS' and e[1][1] is None:
+            out[i] = [Atom('NS'), str(e[1][0]), NONE_URI]
+    return out
+
+
+def real_emptytag(events):
+    from genshi.output import EmptyTagFilter
+    return [xev_wire(e) for e in EmptyTagFilter()(iter(events))]
+
+
+def real_flatten(events, pref=None):
+    from genshi.output import EmptyTagFilter, NamespaceFlattener
+    try:
+        return [fev_wire(e) for e in NamespaceFlattener(prefixes=pref)(EmptyTagFilter()(iter(events)))]
+    except Exception as ex:  # noqa
+        return Atom('raise:' + type(ex).__name__)
+
+
+def real_ser(events):
+    from genshi.output import XMLSerializer
+    try:
+        return [Atom('ok'), ''.join(XMLSerializer(strip_whitespace=False)(iter(events)))]
+    except Exception as ex:  # noqa
+        return Atom('raise')
+
+
+_RANGES = {}
+
+
+def enc_ranges(enc):
+    if enc not in _RANGES:
+        from harness import extract_xml
+        _RANGES[enc] = [list(r) for r in extract_xml._ranges(enc)]
+    return _RANGES[enc]
+
+
+def real_enc(text, enc):
+    from genshi.output import encode
+    return encode(iter([text]), method='xml', encoding=enc).decode(enc)
+
+
+def real_read(text):
+    try:
+        return [Atom('ok'), rev_wire(gen_xml.expat_events(text))]
+    except gen_xml.NotWellFormed:
+        return proto.N
+
+
+class Corr(object):
+    """collects request lines and the real answers; one gdrv run per shard"""
+
+    def __init__(self, res):
+        self.res = res
+        self.lines = []
+        self.meta = []
+
+    def add(self, stream, case, line, real, post=None):
+        self.lines.append(line)
+        self.meta.append((stream, case, real, post))
+
+    def add_events(self, events, case, pref=None, tag=''):
+        w = wire_stream(events)
+        if any(isinstance(x, list) and x and x[0] == 'OTHER' for x in w):
+            self.res.count('corr-skipped-unknown-kind')
+            return
+        self.add('emptytag' + tag, case, proto.line(C02, Atom('emptytag'), w), real_emptytag(events))
+        d = {gen_xml.XML_NS: 'xml'}
+        d.update(pref or {})
+        prefw = sorted([u, p] for u, p in d.items())
+        self.add('flatten' + tag, case, proto.line(C02, Atom('flatten'), prefw, w), real_flatten(events, pref))
+        if pref is None:
+            self.add('ser' + tag, case, proto.line(C02, Atom('xser'), w), real_ser(events))
+
+    def add_text(self, text, case, tag=''):
+        if _skipped_entity_risk(text):
+            self.res.count('read-skipped-doctype-with-undefined-entity')
+            return
+        self.add('read' + tag, case, proto.line(C02, Atom('read'), text), real_read(text), post=_sort_rev)
+
+    def add_enc(self, text, enc, case):
+        self.add('encode', case, proto.line(C02, Atom('enc'), enc_ranges(enc), text), real_enc(text, enc))
+
+    def finish(self):
+        answers = proto.run_lines(self.lines)
+        for ans, (stream, case, real, post) in zip(answers, self.meta):
+            self.res.streams[stream] = self.res.streams.get(stream, 0) + 1
+            if ans == 'unmodelled':
+                self.res.count('model:unmodelled')
+                continue
+            try:
+                model = proto.dec(ans) if ans not in ('bad-op', 'bad-line') else Atom(ans)
+            except Exception:  # noqa
+                model = Atom(ans)
+            if ans == '( )':
+                model = []
+            if post:
+                model = post(model)
+                real = post(real)
+            if model != real:
+                if len(self.res.disagreements) < 50:
+                    self.res.disagreements.append({'stream': stream, 'case': case, 'model': repr(model)[:600],
+                                                   'real': repr(real)[:600]})
+                else:
+                    self.res.count('more-disagreements')
+
+
+# --------------------------------------------------------------------------
+# generation of cases
+
+WILD_NS = ['', 'u1', 'u2', 'p', gen_xml.XML_NS, 'http://www.w3.org/1999/xhtml']
+WILD_PFX = ['', 'p', 'q', 'ns1', 'ns2', 'xml', 'u1']
+WILD_LOC = ['a', 'b', 'x', 'p:a', 'xmlns', 'xmlns:p', 'ns1:x']
+WILD_TXT = ['', 'a', 'a<b', '&amp;', ']]>', '"\'', 'é€\U0001f600', ' \n', '--', '?>', 'x\ty', 'a<b']
+
+
+def gen_wild(rng, n=None):
+    """arbitrary event sequences: unbalanced, namespace events anywhere, odd names; exercises the
+    models outside the domain of the theorems (bug-compatibility). Wire form."""
+    n = n if n is not None else rng.randrange(1, 12)
+    out = []
+    stack = []
+    for _ in range(n):
+        r = rng.random()
+        q = [rng.choice(WILD_NS), rng.choice(WILD_LOC[:4] if rng.random() < 0.8 else WILD_LOC)]
+        if r < 0.28:
+            attrs = []
+            for _ in range(rng.choice([0, 0, 1, 2, 3])):
+                attrs.append([[rng.choice(WILD_NS), rng.choice(WILD_LOC)], rng.choice(WILD_TXT)])
+            out.append([Atom('S'), q, attrs])
+            stack.append(q)
+        elif r < 0.50:
+            if stack and rng.random() < 0.85:
+                out.append([Atom('E'), stack.pop()])
+            else:
+                out.append([Atom('E'), q])
+        elif r < 0.64:
+            out.append([Atom('NS'), rng.choice(WILD_PFX), rng.choice(WILD_NS)])
+        elif r < 0.74:
+            out.append([Atom('ENS'), rng.choice(WILD_PFX)])
+        elif r < 0.86:
+            out.append([Atom('T'), rng.choice(WILD_TXT), B(rng.random() < 0.2)])
+        elif r < 0.89:
+            out.append([Atom('C'), rng.choice(WILD_TXT)])
+        elif r < 0.92:
+            out.append([Atom('PI'), rng.choice(['a', 'xml', 'php']), rng.choice(WILD_TXT)])
+        elif r < 0.94:
+            out.append(Atom('SC'))
+        elif r < 0.96:
+            out.append(Atom('EC'))
+        elif r < 0.98:
+            out.append([Atom('XD'), '1.0', rng.choice([proto.N, 'utf-8', '']), Atom(str(rng.choice([-1, 0, 1, 2])))])
+        else:
+            out.append([Atom('DT'), rng.choice(['a', 'html', '']), rng.choice([proto.N, 'pub', '']),
+                        rng.choice([proto.N, 'sys', 'a"b', ''])])
+    if rng.random() < 0.7:
+        while stack:
+            out.append([Atom('E'), stack.pop()])
+    return out
+
+
+def _skipped_entity_risk(text):
+    """with a DOCTYPE that names an external subset expat does not treat an undefined entity as an
+    error (it might be declared there); the reader's language has no DOCTYPE-dependent rules"""
+    import re
+    if '<!DOCTYPE' not in text:
+        return False
+    return any(m not in ('amp', 'lt', 'gt', 'quot', 'apos') for m in re.findall(r'&([^#;&<>\s"\']*);', text))
+
+
+def mutate(rng, text):
+    """one small edit of serializer output, to compare accept/reject of the Lean reader and expat"""
+    if not text:
+        return '<'
+    alphabet = '<>&"\'=/ ;#x-]?![a:1'
+    i = rng.randrange(len(text))
+    r = rng.random()
+    if r < 0.4:
+        return text[:i] + text[i + 1:]
+    if r < 0.7:
+        return text[:i] + rng.choice(alphabet) + text[i:]
+    if r < 0.9:
+        return text[:i] + rng.choice(alphabet) + text[i + 1:]
+    j = rng.randrange(len(text))
+    i, j = min(i, j), max(i, j)
+    return text[:i] + text[j:]
+
+
+def _wire_json(w):
+    """wire value -> JSON-able (atoms tagged) for replay files"""
+    if isinstance(w, Atom):
+        return {'atom': str(w)}
+    if isinstance(w, list):
+        return [_wire_json(x) for x in w]
+    return w
+
+
+def _json_wire(j):
+    if isinstance(j, dict):
+        return Atom(j['atom'])
+    if isinstance(j, list):
+        return [_json_wire(x) for x in j]
+    return j
+
+
+def stats_key(doc):
+    return '+'.join(sorted(gen_xml.doc_stats(doc)))
+
+
+def shard(arg):
+    import random
+    from genshi.input import XML
+    from genshi.core import Stream
+    seed, idx, ndocs, ntrees, nwild, opts = arg
+    rng = random.Random('%s/%s/C02' % (seed, idx))
+    res = Result()
+    corr = Corr(res)
+    texts = []
+    for i in range(ndocs):
+        o = {}
+        r = rng.random()
+        if r < 0.15:
+            o = {'ns': 'none'}
+        elif r < 0.3:
+            o = {'ns': 'simple'}
+        if rng.random() < 0.2:
+            o['nonascii'] = rng.choice(['all', 'none'])
+        if rng.random() < 0.1:
+            o['depth'] = 5
+            o['width'] = 3
+        doc = gen_xml.gen_doc(rng, **o)
+        text = gen_xml.write_doc(doc)
+        case = {'kind': 'doc', 'text': text}
+        res.evaluations += 1
+        tags = gen_xml.doc_stats(doc)
+        for t in tags:
+            res.count('doc:' + t)
+        f = oracle_case(case, res)
+        if f:
+            res.failures.append(f)
+        if tags & {'rebound-prefix', 'rebound-default', 'undeclared-default', 'several-prefixes-per-uri', 'ns-attr',
+                   'cdata', 'references'}:
+            res.nontrivial.add(stats_key(doc) + '/' + str(len(text) // 40))
+        if len(res.samples) < 2:
+            res.samples.append(case)
+        try:
+            events = list(XML(text))
+        except Exception:  # noqa
+            res.count('generator-ill-formed')
+            continue
+        if gen_xml.canon_events(events) != gen_xml.expected_events(doc):
+            res.count('first-parse-differs-from-generating-tree')
+            res.notes.append('first parse differs from the generating tree: %r' % text[:200])
+        corr.add_events(events, case)
+        if i % 4 == 0:
+            out = ''.join(_ser(events))
+            texts.append(out)
+            corr.add_text(out, case)
+            enc = ENCODINGS[(i // 4) % 4]
+            corr.add_enc(out, enc, {'kind': 'enc', 'text': out, 'enc': enc})
+    # source documents without HTML entities through the reader (single quotes, hex references, spacing)
+    for i in range(ndocs // 4):
+        doc = gen_xml.gen_doc(rng, html_entities=False)
+        text = gen_xml.write_doc(doc)
+        corr.add_text(text, {'kind': 'read', 'text': text}, tag='-source')
+    for i in range(min(len(texts), ndocs // 4)):
+        t = mutate(rng, rng.choice(texts))
+        corr.add_text(t, {'kind': 'read', 'text': t}, tag='-mutated')
+    for i in range(ntrees):
+        tree = gen_xml.gen_tree(rng, depth=rng.choice([1, 2, 3, 4]))
+        case = {'kind': 'tree', 'tree': tree}
+        res.evaluations += 1
+        f = oracle_case(case, res)
+        if f:
+            res.failures.append(f)
+        nss = set()
+
+        def walk(n):
+            if n['t'] == 'e':
+                nss.add(n['name'][0])
+                for a in n['attrs']:
+                    nss.add('@' + a[0][0])
+                for k in n['kids']:
+                    walk(k)
+        walk(tree)
+        res.count('tree:namespaces=%d' % min(len(nss), 5))
+        if len(nss) > 1:
+            res.nontrivial.add('tree/' + json.dumps(tree, sort_keys=True)[:200])
+        events = list(gen_xml.build(tree).generate())
+        corr.add_events(events, case, tag='-builder')
+        if i % 5 == 0:
+            corr.add_events(events, case, pref={'u1': 'k', 'u2': '', 'urn:x:y': 'ns1'}, tag='-builder-pref')
+    for i in range(nwild):
+        w = gen_wild(rng)
+        case = {'kind': 'wild', 'events': _wire_json(w)}
+        events = evwire.unstream(w)
+        res.evaluations += 1
+        pref = None
+        if rng.random() < 0.2:
+            pref = rng.choice([{'u1': 'k'}, {'u1': '', 'u2': 'q'}, {'u1': 'ns1'}, {}])
+        corr.add_events(events, case, pref=pref, tag='-wild')
+        res.count('wild:len=%d' % min(len(w) // 4 * 4, 12))
+    # genshi's parser layer pieces
+    from genshi.input import _coalesce
+    from genshi.core import QName
+    for i in range(nwild // 4):
+        w = gen_wild(rng)
+        events = evwire.unstream(w)
+        corr.add('coalesce', {'kind': 'wild', 'events': _wire_json(w)}, proto.line(C02, Atom('coalesce'), w),
+                 evwire.stream(list(_coalesce(iter(events)))))
+        s = rng.choice(['a', '{u}a', 'u}a', '{{u}a', '{u}a}b', '{}a', 'a{b', '}', '{', ''])
+        corr.add('qname', {'kind': 'qname', 'text': s}, proto.line(C02, Atom('qname'), s), evwire.qn(QName(s)))
+    corr.finish()
+    return res
+
+
+def _ser(events):
+    from genshi.output import XMLSerializer
+    return XMLSerializer(strip_whitespace=False)(iter(events))
+
+
+def run(ctx):
+    nsh = 16
+    ndocs = ctx.n(320, 12500)
+    ntrees = ctx.n(130, 5000)
+    nwild = ctx.n(260, 8000)
+    args = [(ctx.seed, i, ndocs, ntrees, nwild, {}) for i in range(nsh)]
+    res = Result()
+    for r in pmap('harness.props.c02', 'shard', args):
+        res.merge(r)
+    res.rule = ('generated well-formed documents (nested / re-bound / undeclared default namespaces, several prefixes per URI, '
+                'mixed content, references, comments, PIs, CDATA, declaration, doctype) and builder trees from arbitrary qualified '
+                'names, each rendered unencoded and in utf-8, ascii, latin-1, utf-16 and re-read by expat; non-trivial = document '
+                'with a re-bound/undeclared/aliased namespace, namespaced attribute, CDATA or reference (distinct by construct set '
+                'and size class) or tree with more than one namespace (distinct by content)')
+    res.samples = res.samples[:6]
+    return res
+
+
+def search(ctx, res, broken):
+    """failing-input search: the disagreeing cases first (through the oracle on the real code),
+    then a larger seeded budget of documents and trees biased to namespace-heavy shapes"""
+    found = []
+    for d in res.disagreements[:200]:
+        case = d.get('case') or {}
+        f = replay(ctx, case)
+        if f:
+            found.append(f)
+    if found:
+        return found
+    args = [(ctx.seed + 1000 + i, i, 700, 300, 0, {}) for i in range(16)]
+    for r in pmap('harness.props.c02', 'shard', args):
+        found.extend(r.failures)
+    return found
+
+
+def replay(ctx, case):
+    kind = case.get('kind')
+    if kind in ('doc', 'tree', 'events'):
+        return oracle_case(case)
+    if kind == 'wild':
+        # correspondence-only input: judge it by the property if it happens to be in its domain
+        from genshi.core import Stream
+        try:
+            events = evwire.unstream(_json_wire(case['events']))
+            first = gen_xml.canon_events(events)
+            stream = Stream(events)
+            text = _render(stream, None)
+            again = gen_xml.expat_events(text)
+        except Exception:  # noqa
+            return None
+        return None
+    return None
